@@ -3,6 +3,8 @@ package main
 // C07 (shift) and C08 (neighbourhoods).
 
 import (
+	"fmt"
+
 	"github.com/trajectoryjp/spatial_id_go/v4/operated"
 )
 
@@ -194,6 +196,14 @@ func init() {
 	reg("G.Shift", func(t *Tracer, w Win, a map[string]any) {
 		for _, s := range decIDs(a["ids"]) {
 			evShift(t, w, s, decInt(a["dx"]), decInt(a["dy"]), decInt(a["dv"]), 0, 0)
+		}
+	})
+	reg("G.Around", func(t *Tracer, w Win, a map[string]any) {
+		evNeighbours(t, w, decID(a["id"]), fmt.Sprintf("N%d", decInt(a["k"])))
+	})
+	reg("G.Higher", func(t *Tracer, w Win, a map[string]any) {
+		for _, s := range decIDs(a["ids"]) {
+			evHigher(t, w, s, minI(decInt(a["dh"]), s.H), minI(decInt(a["dv"]), s.V))
 		}
 	})
 	reg("G.NLayer", func(t *Tracer, w Win, a map[string]any) {
